@@ -93,7 +93,8 @@ class Contract:
     def __init__(self, key, params, returns=None, requires=(), ensures=(), raises=None, loops=None,
                  modifies=(), inline=(), witness=(), ghost=(), trusted=False, pure=False, note="",
                  raise_ensures=None, decreases=None, body=None, unroll=None, assume_valid=True,
-                 replay=None, props=(), lemmas=(), locals=None, hints=(), domains=None, gen=None, ghost_scope=None, no_runtime=False, bounded_only=False, depth=None, reveal=(), frame_only=False, param_values=None):
+                 replay=None, props=(), lemmas=(), locals=None, hints=(), domains=None, gen=None, ghost_scope=None, no_runtime=False, bounded_only=False, depth=None, reveal=(), frame_only=False, param_values=None, modifies_ghost=()):
+        self.modifies_ghost = list(modifies_ghost)   # ghost variables the function may change (havoced at call sites)
         self.param_values = dict(param_values or {})   # parameters with a fixed (python-level) value, e.g. cls of a classmethod
         self.reveal = list(reveal)        # opaque spec functions whose definitions these VCs may unfold
         self.frame_only = frame_only      # loops without a stated invariant are cut with the trivial invariant (frame / exception analysis)
@@ -129,6 +130,8 @@ class Contract:
         self.locals = dict(locals or {})  # declared types of local variables (needed for empty literals)
 
 
+GHOSTS = {}     # name -> Ty : global ghost variables (abstract disk, message trace) visible in specifications
+EFFECTS = {}    # repo function key -> handler(E, args, kwargs, fr, node): trusted model of a function with ghost effects
 SPEC = {}       # name -> SpecFn
 LEMMAS = {}     # name -> Lemma
 CLASSES = {}    # key -> ClassDecl
@@ -169,6 +172,18 @@ def contract(key, **kw):
     c = Contract(key, **kw)
     CONTRACTS[key] = c
     return c
+
+
+def ghost_var(name, ty):
+    GHOSTS[name] = ty
+
+
+def effect(key, note=""):
+    def deco(f):
+        f.note = note
+        EFFECTS[key] = f
+        return f
+    return deco
 
 
 def inline(*keys):
